@@ -1260,3 +1260,40 @@ theorem encode_error_value {α : Type} [DecidableEq α] (gt : String) (finite : 
 
 
 end HdVerif.Ann
+
+namespace HdVerif.Ann
+open HdVerif HdVerif.Gen
+
+/-! ### dtype acceptance, rank guard, corrupted index lists -/
+
+theorem dtypePlan_spec (kind : String) (itemsize : Int) :
+    dtypePlan kind itemsize =
+      if kind = "u" ∨ kind = "i" then .ok true
+      else if kind ≠ "f" ∨ itemsize > 8 then .error .value
+      else .ok (decide (itemsize < 4)) := by
+  unfold dtypePlan
+  by_cases h1 : kind = "u"
+  · subst h1; simp
+  by_cases h2 : kind = "i"
+  · subst h2; simp
+  by_cases h3 : kind = "f"
+  · subst h3
+    by_cases h4 : itemsize > 8 <;> by_cases h5 : itemsize < 4 <;> simp [h4, h5] <;> omega
+  · simp [h1, h2, h3]
+
+theorem encodePlan_ndim (ndim c : Int) (fin dbl : Bool) (nu : Int) (h : ndim ≠ 2) :
+    encodePlan ndim c fin nu dbl = .error .value := by
+  unfold encodePlan
+  simp [h]
+
+theorem checkIndexList_invalid (stored nRows : Int) (il : List Int)
+    (h : ((il.map (fun i => i - 1)).isEmpty || headNotZero (il.map (fun i => i - 1)) || anyNotIncreasing (il.map (fun i => i - 1)) ||
+      (il.map (fun i => i - 1)).any (fun i => decide (Int.fmod i stored ≠ 0)) ||
+      lastBeyond (il.map (fun i => i - 1)) (nRows * stored)) = true) :
+    checkIndexList stored nRows il = .error .value := by
+  have hz : mapE pointIndexZero il = .ok (il.map (fun i => i - 1)) := mapE_all_ok _ _ il (fun i _ => rfl)
+  unfold checkIndexList
+  simp only [hz, indexListTotal, indexListGuard_spec, h, if_true]
+
+
+end HdVerif.Ann
